@@ -4,7 +4,7 @@
    id lists are comma separated, state sets are separated by semicolons; the table lists the
    verdicts of the real auth rules for (event, provider contents) pairs, one per line:
    event id, a bar, the sorted provider ids, a bar, 1 or 0. *)
-From Verif Require Import Lib.Bytes StateRes.Event StateRes.Kahn StateRes.V2 StateRes.V1 StateRes.Entry StateRes.V2Spec StateRes.Wf.
+From Verif Require Import Lib.Bytes StateRes.Event StateRes.Kahn StateRes.V2 StateRes.V1 StateRes.Entry StateRes.V2Spec StateRes.V1Spec StateRes.Wf.
 Open Scope N_scope.
 
 Definition idsort (l : list bytes) : list bytes := ssort bytes_cmp l.
@@ -258,6 +258,75 @@ Definition prop_authdiff (args : list bytes) : bytes :=
   | _ => bs "badargs"
   end.
 
+
+(* ---------- 6.2 r1-r3 as an oracle on the implementation's power order ----------
+   [ver; universe; list; auth; create; event JSONs; observable]; lists with repeated entries are
+   outside this definition (the model covers them) *)
+Definition prop_power_order (args : list bytes) : bytes :=
+  match args with
+  | [ver; u; l; auth; create; _; obs] =>
+      let un := decode_universe u in
+      let input := lookup_ids un (parse_ids l) in
+      if negb (nodup_bytes (ids_of input)) then bs "ok"
+      else
+        let authmap := dedup_events (lookup_ids un (parse_ids auth)) in
+        let items := map (fun e => (e, spec_sender_power (priv_of_version ver) GenConsts.gen_creator_power_level
+                                                         users_default0 authmap (find_event create un) e)) input in
+        let want := join_ids (map (fun x => e_id (fst x)) (spec_power_order (S (length items)) items)) in
+        if bytes_eqb want obs then bs "ok" else bs "FAIL 6.2-r1 order is " ++ want
+  | _ => bs "badargs"
+  end.
+
+(* ---------- 6.2 r4: the output is the input sorted by (position, steps, timestamp, ID) ----------
+   [ver; universe; list; auth; resolved power levels; event JSONs; observable] *)
+Definition prop_mainline_order (args : list bytes) : bytes :=
+  match args with
+  | [_; u; l; auth; pl; _; obs] =>
+      let un := decode_universe u in
+      let input := lookup_ids un (parse_ids l) in
+      let authmap := dedup_events (lookup_ids un (parse_ids auth)) in
+      let resolved := find_event pl un in
+      if negb (at_most_one_power_auth authmap (authmap ++ input ++ match resolved with Some p => [p] | None => [] end))
+      then bs "ok"
+      else
+        let out := lookup_ids un (parse_ids obs) in
+        if negb (Nat.eqb (length out) (length (parse_ids obs))) then bs "FAIL unknown-event"
+        else if negb (bytes_eqb (join_ids (idsort (ids_of out))) (join_ids (idsort (ids_of input))))
+        then bs "FAIL not-a-rearrangement-of-the-input"
+        else if sorted_by_mainline authmap resolved out then bs "ok"
+        else bs "FAIL not-sorted-by-mainline-key"
+  | _ => bs "badargs"
+  end.
+
+(* ---------- 6.2 r7: the v1 winner of every conflicted key ----------
+   [ver; universe; sets (or, deprecated entry point, one list of events); auth; rejected; table;
+   event JSONs; observable] *)
+Definition prop_v1_on (ver : bytes) (un : list event) (ss : list (list event)) (auth tbl obs : bytes) : bytes :=
+  if negb (is_v1 ver) then bs "ok"
+  else if negb (sets_are_lists_without_repeats ss) then bs "ok"
+  else
+    let cu := spec_split true ss in
+    let authl := lookup_ids un (parse_ids auth) in
+    if negb (auth_events_unconflicted (fst cu) authl) then bs "ok"
+    else
+      let t := parse_table tbl in
+      let want := out_sorted (spec_resolve_v1 (allowed_of_table t) (fst cu) authl ++ snd cu) in
+      if bytes_eqb want obs then bs "ok" else bs "FAIL 6.2-r7 state is " ++ want.
+
+Definition prop_v1 (args : list bytes) : bytes :=
+  match args with
+  | [ver; u; sets; auth; _; tbl; _; obs] =>
+      let un := decode_universe u in prop_v1_on ver un (parse_sets un sets) auth tbl obs
+  | _ => bs "badargs"
+  end.
+
+Definition prop_v1_old (args : list bytes) : bytes :=
+  match args with
+  | [ver; u; evs; auth; _; tbl; _; obs] =>
+      let un := decode_universe u in prop_v1_on ver un [dedup_events (lookup_ids un (parse_ids evs))] auth tbl obs
+  | _ => bs "badargs"
+  end.
+
 Definition ops_C10 : list (bytes * (list bytes -> bytes)) :=
   [ (bs "C10.split", run_split);
     (bs "C10.authdiff_new", run_authdiff_new);
@@ -270,4 +339,8 @@ Definition ops_C10 : list (bytes * (list bytes -> bytes)) :=
     (bs "C10.resolve_old", run_resolve_old);
     (bs "C10.stages", run_stages);
     (bs "C10.prop.split", prop_split);
-    (bs "C10.prop.authdiff", prop_authdiff) ].
+    (bs "C10.prop.authdiff", prop_authdiff);
+    (bs "C10.prop.power_order", prop_power_order);
+    (bs "C10.prop.mainline_order", prop_mainline_order);
+    (bs "C10.prop.v1", prop_v1);
+    (bs "C10.prop.v1_old", prop_v1_old) ].
